@@ -130,4 +130,10 @@ def rule_every_symbol_collected(ctx):
     ctx.obls.extend(o for o in sub.obls if o["key"].startswith("COLLECT:") and ("symbols" in o["key"] or "leaf:symbol" in o["key"]))
 
 
-RULES = [rule_pre1, rule_pre2, rule_chain, rule_transition, rule_every_symbol_collected]
+def rule_identity(ctx):
+    """items kept in sets are the same element exactly when all their fields agree: see collect.check_structural_identity"""
+    from .. import collect as _collect
+    _collect.check_structural_identity(ctx, "IDENT", ctx.facts)
+
+
+RULES = [rule_pre1, rule_pre2, rule_chain, rule_transition, rule_every_symbol_collected, rule_identity]
